@@ -273,8 +273,6 @@ func applyPortsToEdge(from ast.Vertex, to *ast.Edge, edge basicEdge) {
 
 // addEdgeStmt adds the given edge statement to the graph.
 func (gen *simpleGraph) addEdgeStmt(dst encoding.Builder, stmt *ast.EdgeStmt) {
-	fs := gen.addVertex(dst, stmt.From)
-	ts := gen.addEdge(dst, stmt.To, stmt.Attrs)
 	defer func() {
 		switch e := recover().(type) {
 		case nil:
@@ -285,6 +283,8 @@ func (gen *simpleGraph) addEdgeStmt(dst encoding.Builder, stmt *ast.EdgeStmt) {
 			panic(fmt.Errorf("panic setting edge: %v", e))
 		}
 	}()
+	fs := gen.addVertex(dst, stmt.From)
+	ts := gen.addEdge(dst, stmt.To, stmt.Attrs)
 	for _, f := range fs {
 		for _, t := range ts {
 			edge := dst.NewEdge(f, t)
